@@ -170,6 +170,8 @@ RULE = ("programs = behaviours of Gen.tla with NO ill-typed join (Ill0 = 0) that
 
 def main(tier, replay=None):
     t0 = time.time()
+    if replay:
+        return c01.do_replay(PID, replay, work)
     fams = QUICK if tier == "quick" else THOROUGH
     try:
         return c01.run(PID, tier, fams, t0, worker=work, rule=RULE, level="model_checking")
